@@ -126,3 +126,22 @@ class Recorder:
 
 
 REC = Recorder()
+
+
+def call_and_hold(calls, monitor):
+    """run the getter calls, keep every returned object with its digest at return time, and afterwards require that none of the held
+    objects changed (a later getter that re-uses and overwrites an earlier result's buffers shows up here)"""
+    from vlib.props.c08 import dg
+    held = []
+    for c in calls:
+        out = c()
+        try:
+            held.append((getattr(c, "__name__", "getter"), out, dg(out)))
+        except Exception:
+            pass
+    for name, obj, d0 in held:
+        try:
+            REC.check(monitor, dg(obj) == d0, {"getter": name, "problem": "an object returned earlier was modified by a later call"})
+        except Exception as e:
+            REC.crashed(monitor, e)
+    return [h[1] for h in held]
